@@ -82,6 +82,31 @@ theorem emit_open_term (r : MSt σ α β) (n : Notif β) (h : r.downOpen = true)
     r.emit m n = MSt.runTeardown m { r with out := r.out ++ [n], downOpen := false } := by
   unfold MSt.emit; simp [h, hn, hb]
 
+theorem closeAll_setSt (ks : List Nat) (r : MSt σ α β) (s : σ) :
+    ks.foldl MSt.closeSrc { r with st := s } = { (ks.foldl MSt.closeSrc r) with st := s } := by
+  induction ks generalizing r with
+  | nil => rfl
+  | cons k ks ih => exact ih (r.closeSrc k)
+
+/-- a change of the operator's locals that the teardown does not look at commutes with an emission -/
+theorem emit_setSt (f : σ → σ) (hf1 : ∀ s, (m.teardown (f s)).1 = f (m.teardown s).1)
+    (hf2 : ∀ s, (m.teardown (f s)).2 = (m.teardown s).2) (r : MSt σ α β) (n : Notif β) :
+    MSt.emit m { r with st := f r.st } n = { (r.emit m n) with st := f (r.emit m n).st } := by
+  unfold MSt.emit
+  by_cases hd : r.downOpen = true
+  · by_cases hn : n.isTerminal = true
+    · by_cases hb : r.booted = true
+      · simp only [hd, hn, hb, if_true]
+        unfold MSt.runTeardown
+        simp only [hf1, hf2]
+        have h1 := closeAll_setSt (m.teardown r.st).2 ({ r with downOpen := false, booted := true, out := r.out ++ [n] } : MSt σ α β) (f (m.teardown r.st).1)
+        have h2 := closeAll_setSt (m.teardown r.st).2 ({ r with downOpen := false, booted := true, out := r.out ++ [n] } : MSt σ α β) (m.teardown r.st).1
+        simp only at h1 h2
+        rw [h1, h2]
+      · simp [hd, hn, hb]
+    · simp [hd, hn]
+  · simp [hd]
+
 /-- a list of emissions, in order -/
 def emits (r : MSt σ α β) (l : List (Notif β)) : MSt σ α β := l.foldl (MSt.emit m) r
 
@@ -318,6 +343,10 @@ theorem booted_preserved (m : MMachine σ α β) : Preserved m (fun r => r.boote
   sub := fun _ _ _ h => h
   drop := fun _ _ h => h
   over := fun _ h => h
+
+theorem phasesAt_is_phases (m : MMachine σ α β) (cfg : Sources α) (d : Nat) :
+    ∃ rec, phasesAt m cfg d = phases m cfg rec := by
+  cases d <;> exact ⟨_, rfl⟩
 
 theorem phases_emit1 (m : MMachine σ α β) (cfg : Sources α) (rec) (r : MSt σ α β) (x : Notif β) :
     phases m cfg rec [fun s => (s, [.emit x])] r = r.emit m x := rfl
